@@ -12,7 +12,7 @@ import re
 import subprocess
 import sysconfig
 
-BIOM = "/repo/biom"
+BIOM = os.path.join(os.environ.get("VERIF_REPO", "/repo"), "biom")
 
 
 def _pyx_lines_in_c(cpath, pyxname):
